@@ -294,6 +294,82 @@ class CFObservedMachine(CFMachine):
         return viols
 
 
+class CFPairMachine:
+    """two component finders over overlapping value sets alive at the same time; the second one is created by the
+    operation ("new",) at any point of the history.  Every element of both finders is looked up after every
+    operation (also during replay, so a state is the pair of path-compressed forests): each finder must behave as
+    if the other did not exist (nothing may be shared between instances)."""
+
+    def __init__(self, values_a, values_b, name):
+        self.va, self.vb = list(values_a), list(values_b)
+        self.name = name
+
+    def initial(self):
+        return [()]
+
+    def _apply(self, cfs, blocks, op):
+        from whatshap.graph import ComponentFinder
+
+        if op[0] == "new":
+            cfs[1] = ComponentFinder(self.vb)
+            blocks[1] = {v: frozenset([v]) for v in self.vb}
+        else:
+            cfs[op[1]].merge(op[2], op[3])
+            CFMachine._model_merge(blocks[op[1]], op[2], op[3])
+
+    def _observe(self, cfs, blocks, viols, after):
+        for w, vals in ((0, self.va), (1, self.vb)):
+            if cfs[w] is None:
+                continue
+            for v in vals:
+                got = cfs[w].find(v)
+                want = min(blocks[w][v])
+                if got != want and viols is not None:
+                    viols.append(self._v("two-finders", f"finder {w}: find({v!r})={got!r} after {after!r}, minimum of its component in that finder is {want!r} (two finders alive)"))
+
+    def replay(self, hist):
+        from whatshap.graph import ComponentFinder
+
+        cfs = [ComponentFinder(self.va), None]
+        blocks = [{v: frozenset([v]) for v in self.va}, None]
+        self._observe(cfs, blocks, None, ())
+        for op in hist:
+            self._apply(cfs, blocks, op)
+            self._observe(cfs, blocks, None, op)
+        return [cfs, blocks]
+
+    def enabled(self, st):
+        cfs, _ = st
+        ops = []
+        if cfs[1] is None:
+            ops.append(("new",))
+        for w, vals in ((0, self.va), (1, self.vb)):
+            if cfs[w] is None:
+                continue
+            ops += [("merge", w, x, y) for x, y in itertools.permutations(vals, 2)]
+        return ops
+
+    def step(self, st, op):
+        cfs, blocks = st
+        viols = []
+        self._apply(cfs, blocks, op)
+        self._observe(cfs, blocks, viols, op)
+        return viols
+
+    def _v(self, clause, detail):
+        return {"clause": "cf:" + clause, "signature": "cf:" + clause, "detail": detail, "machine": self.name}
+
+    def canon(self, st):
+        cfs = st[0]
+        return tuple(None if cf is None else tuple((v, None if cf.nodes[v].parent is None else cf.nodes[v].parent.value) for v in vals) for cf, vals in zip(cfs, (self.va, self.vb)))
+
+    def invariants(self, st):
+        return []
+
+    def outcome(self, st, op):
+        return (len(set(st[1][0].values())), None if st[1][1] is None else len(set(st[1][1].values())))
+
+
 def machines(tier):
     ms = [
         PQMachine([0, 1, 2, 3], [0, 1, 2], "pq-scalar-4x3"),
@@ -309,6 +385,8 @@ def machines(tier):
         CFMachine(["b", "a", "d", "c"], "cf-str-4"),
         CFObservedMachine([0, 1, 2, 3, 4], "cf-observed-int-5"),
         CFObservedMachine([7, 3, 9, 1], "cf-observed-unsorted-4"),
+        CFPairMachine([1, 2, 3, 4], [2, 3, 4, 5], "cf-two-finders-4+4"),
+        CFPairMachine(["a", "b", "c"], ["b", "c", "d"], "cf-two-finders-str-3+3"),
     ]
     if tier == "thorough":
         ms += [
